@@ -34,6 +34,11 @@ func phcObserve(s string) (obs string, outcome string) {
 	if err != nil || p == nil {
 		return "PErr", "err"
 	}
+	// An accepted hash is then used by login / change-password: verifying a password against it must not
+	// panic either (cheap parameters only; the verification result itself is not the subject here).
+	if verifyPanics(p) {
+		return "PPanic", "panic-at-verify"
+	}
 	// "$argon2id$v=%d$m=%d,t=%d,p=%d,l=%d$%s$%s"
 	parts := strings.Split(p.String(), "$")
 	if len(parts) != 6 || parts[1] != "argon2id" {
@@ -49,6 +54,24 @@ func phcObserve(s string) (obs string, outcome string) {
 	}
 	return fmt.Sprintf("(POk %s %s %s %s %s %s %s)", emit.Z(v), emit.ZU(m), emit.ZU(t), emit.ZU(pp), emit.ZU(l),
 		emit.PBytes(salt), emit.PBytes(hash)), "ok"
+}
+
+func verifyPanics(p *phc.PHC) (panicked bool) {
+	parts := strings.Split(p.String(), "$")
+	if len(parts) != 6 {
+		return false
+	}
+	var m, t, pp, l uint64
+	if n, _ := fmt.Sscanf(parts[3], "m=%d,t=%d,p=%d,l=%d", &m, &t, &pp, &l); n != 4 || m > 1<<16 || t > 4 || pp > 64 || l > 1024 {
+		return false // too expensive to run here
+	}
+	defer func() {
+		if r := recover(); r != nil {
+			panicked = true
+		}
+	}()
+	p.VerifyArgon2id("not the password")
+	return false
 }
 
 func decodeObserve(capacity int, src string) (obs string, outcome string) {
